@@ -1,7 +1,246 @@
-//! C05 — not implemented yet.
-use vmon::report::Args;
+//! C05 — every committed version is internally well formed.
+//!
+//! Random histories over the whole op set; after every step every *new* version is walked deeply
+//! by the independent structural walker (crate::walker), and at the end of the history every
+//! retained version is walked again through a fresh Session.
+use crate::hist::{base_weights, Hist, HistCfg, OpKind};
+use crate::walker::{check_view, walk, View};
+use serde_json::json;
+use vmon::prng::Rng;
+use vmon::report::{Args, Report};
 
-pub fn run(_args: &Args) -> i32 {
-    eprintln!("HARNESS-ERROR C05 not implemented");
-    2
+pub fn run(args: &Args) -> i32 {
+    if args.extra.contains_key("selftest") {
+        return selftest(args);
+    }
+    let report = Report::new(
+        args,
+        "exploration",
+        "case = one seeded history (Rng::for_case(seed,i)) of <=12 (quick) / <=40 (thorough) public write/maintenance ops on a memory:// table (+branches, shallow clones), random storage version and stable-row-id setting; every version it commits is walked by an independent manifest walker. Non-trivial = >=3 ops committed and >=2 versions walked with >=1 deletion file or index or multi-file fragment seen; distinct by (config, op kinds, outcomes).",
+        (70, 900),
+    )
+    .with_min_nontrivial(10);
+    let max_ops = args.tier.pick(12usize, 40);
+    let max_cases = args.tier.pick(4000u64, 200_000);
+    crate::hist::run_parallel(&report, args, 16, max_cases, 120, |i, report| {
+        Box::pin(one_case(args.seed, i, max_ops, report))
+    });
+    report.finish()
+}
+
+pub struct WalkStats {
+    pub versions: u64,
+    pub interesting: bool,
+}
+
+/// Deep-walk one version; raises violations. Returns whether the version had "interesting" structure.
+pub async fn walk_and_report(
+    h: &Hist,
+    ds: &lance::Dataset,
+    what: &str,
+    report: &Report,
+    seed: u64,
+    case: u64,
+) -> bool {
+    let w = walk(ds, &h.env.raw(), true).await;
+    report.count("versions_walked", 1);
+    report.count("data_files_opened", w.data_files_opened);
+    report.count("deletion_files_decoded", w.deletion_files_read);
+    report.count("rowid_sequences_decoded", w.rowid_seqs_decoded);
+    report.count("index_segments_checked", w.index_segments);
+    report.count("fragments_walked", w.frags.len() as u64);
+    for (sig, detail) in &w.problems {
+        report.violation(
+            sig,
+            &format!("{what}: {detail}"),
+            json!({"seed": seed, "case": case, "config": h.cfg.describe(), "version": what,
+                   "problem": detail, "all_problems": w.problems, "ops": h.ops_json(48)}),
+        );
+    }
+    w.deletion_files_read > 0 || w.index_segments > 0 || w.frags.iter().any(|f| f.n_files > 1)
+}
+
+async fn one_case(seed: u64, case: u64, max_ops: usize, report: &Report) {
+    let mut rng = Rng::for_case(seed, case);
+    let cfg = HistCfg::random(&mut rng);
+    let n_ops = rng.urange(4, max_ops);
+    let weights = base_weights();
+    let mut h = Hist::mem(rng.clone(), cfg);
+    let rec = h.create_table("memory://t0").await;
+    if !rec.outcome.is_ok() {
+        report.harness_error(&format!("case {case}: create failed: {}", rec.outcome.text()));
+        return;
+    }
+    let mut interesting = false;
+    let mut walked = 0u64;
+    let mut recs = vec![rec];
+    for _ in 0..n_ops {
+        if !report.time_left() {
+            break;
+        }
+        let kind: OpKind = *rng.pick_weighted(&weights);
+        recs.push(h.step(kind).await);
+        let rec = recs.last().unwrap();
+        for (loc, v) in rec.new_versions.clone() {
+            let Some(lin) = h.lin.get(&loc) else { continue };
+            let ds = if lin.latest() == v {
+                Ok(lin.head.clone())
+            } else {
+                lin.head.checkout_version(v).await
+            };
+            match ds {
+                Ok(ds) => {
+                    interesting |= walk_and_report(&h, &ds, &format!("{}:v{}", loc.label(), v), report, seed, case).await;
+                    walked += 1;
+                }
+                Err(e) => {
+                    report.violation(
+                        "new-version-cannot-be-opened",
+                        &format!("{}:v{} {}", loc.label(), v, e),
+                        json!({"seed": seed, "case": case, "ops": h.ops_json(48)}),
+                    );
+                }
+            }
+        }
+    }
+    // final pass: every retained version of every live lineage through a fresh session
+    for loc in h.live_locs() {
+        let vs: Vec<u64> = h.lin[&loc].snaps.keys().copied().collect();
+        for v in vs {
+            match h.open_at(&loc, Some(v), true).await {
+                Ok(ds) => {
+                    walk_and_report(&h, &ds, &format!("{}:v{} (fresh)", loc.label(), v), report, seed, case).await;
+                    report.count("versions_rewalked_fresh_session", 1);
+                }
+                Err(e) => {
+                    report.violation(
+                        "retained-version-cannot-be-opened",
+                        &format!("{}:v{} {}", loc.label(), v, e),
+                        json!({"seed": seed, "case": case, "ops": h.ops_json(48)}),
+                    );
+                }
+            }
+        }
+    }
+    h.count_ops(report);
+    let committed = h.steps.iter().filter(|s| s.outcome.is_ok() && !s.new_versions.is_empty()).count();
+    let nontrivial = committed >= 3 && walked >= 2 && interesting;
+    report.case(if nontrivial { Some(h.shape_sig()) } else { None });
+    for d in h.model_disagreements.iter().take(2) {
+        report.count("model_disagreement_samples", 1);
+        if report.counter("model_disagreement_samples") <= 3 {
+            report.set(
+                &format!("model_disagreement_{}", report.counter("model_disagreement_samples")),
+                json!({"seed": seed, "case": case, "what": d}),
+            );
+        }
+    }
+    for p in h.problems.iter().take(1) {
+        if report.counter("engine_problem_samples") < 3 {
+            report.count("engine_problem_samples", 1);
+            report.set(
+                &format!("engine_problem_{}", report.counter("engine_problem_samples")),
+                json!({"seed": seed, "case": case, "what": p}),
+            );
+        }
+    }
+    if report.want_sample() && nontrivial {
+        report.sample(json!({"case": case, "config": h.cfg.describe(), "versions_walked": walked,
+                             "lineages": h.live_locs().iter().map(|l| l.label()).collect::<Vec<_>>(),
+                             "ops": h.ops_json(14)}));
+    }
+}
+
+/// Corrupt the *observation* in every way the property rules out and check that the pure oracle
+/// flags each with the expected signature.
+fn selftest(args: &Args) -> i32 {
+    let rt = tokio::runtime::Builder::new_current_thread().enable_all().build().unwrap();
+    let view: View = rt.block_on(async {
+        // a real history that ends with deletions, an index and stable row ids
+        let mut rng = Rng::for_case(args.seed, 0);
+        let mut cfg = HistCfg::random(&mut rng);
+        cfg.stable_row_ids = true;
+        cfg.storage = lance_encoding::version::LanceFileVersion::V2_0;
+        let mut h = Hist::mem(rng, cfg);
+        h.create_table("memory://t0").await;
+        for k in [OpKind::Append, OpKind::DeleteIds, OpKind::Append, OpKind::CreateIndex, OpKind::AddColumn, OpKind::DeleteIds] {
+            h.step(k).await;
+        }
+        let loc = h.live_locs()[0].clone();
+        let w = walk(&h.lin[&loc].head, &h.env.raw(), true).await;
+        assert!(w.problems.is_empty(), "selftest base history not clean: {:?}", w.problems);
+        w.view.unwrap()
+    });
+    let mut failures = vec![];
+    let mut expect = |name: &str, v: &View, sig: &str| {
+        let p = check_view(v);
+        if !p.iter().any(|(s, _)| s == sig) {
+            failures.push(format!("{name}: expected {sig}, got {:?}", p));
+        }
+    };
+    assert!(check_view(&view).is_empty());
+    let fi = view.frags.iter().position(|f| f.deletion.is_some()).expect("a fragment with deletions");
+    let mut v = view.clone();
+    v.schema_fields[1].0 = v.schema_fields[0].0;
+    expect("dup field id", &v, "schema-field-id-duplicate");
+    let mut v = view.clone();
+    let mut extra = v.frags[0].files[0].clone();
+    extra.path = "other.lance".into();
+    v.frags[0].files.push(extra);
+    expect("field in two files", &v, "field-stored-by-two-data-files");
+    let mut v = view.clone();
+    v.frags[0].files[0].rows = v.frags[0].files[0].rows.map(|r| r + 1);
+    expect("row count", &v, "datafile-rows-ne-physical_rows");
+    let mut v = view.clone();
+    let phys = v.frags[fi].physical_rows.unwrap() as u32;
+    v.frags[fi].deletion.as_mut().unwrap().0.push(phys);
+    expect("deletion out of range", &v, "deletion-offset-out-of-range");
+    let mut v = view.clone();
+    let d = v.frags[fi].deletion.as_mut().unwrap();
+    d.1 = Some(d.0.len() + 1);
+    expect("num_deleted_rows", &v, "deletion-count-ne-num_deleted_rows");
+    if view.frags.len() >= 2 {
+        let mut v = view.clone();
+        v.frags.swap(0, 1);
+        expect("fragment order", &v, "fragment-ids-not-strictly-increasing");
+    }
+    let mut v = view.clone();
+    v.max_fragment_id = Some(0);
+    v.frags.last_mut().unwrap().id = 5;
+    expect("max fragment id", &v, "fragment-id-above-max_fragment_id");
+    let mut v = view.clone();
+    v.frags[0].row_ids.as_mut().unwrap().pop();
+    expect("row id count", &v, "rowid-count-ne-physical_rows");
+    let mut v = view.clone();
+    // duplicate a live row id
+    let live_pos: Vec<usize> = {
+        let f = &v.frags[0];
+        let del: std::collections::HashSet<u32> = f.deletion.as_ref().map(|d| d.0.iter().copied().collect()).unwrap_or_default();
+        (0..f.row_ids.as_ref().unwrap().len()).filter(|p| !del.contains(&(*p as u32))).collect()
+    };
+    if live_pos.len() >= 2 {
+        let ids = v.frags[0].row_ids.as_mut().unwrap();
+        ids[live_pos[1]] = ids[live_pos[0]];
+        expect("dup row id", &v, "rowid-duplicate-among-live-rows");
+    }
+    let mut v = view.clone();
+    v.next_row_id = 1;
+    expect("next_row_id", &v, "rowid-not-below-next_row_id");
+    let mut v = view.clone();
+    v.indices[0].fields = vec![999];
+    expect("index field", &v, "index-field-not-in-schema");
+    let mut v = view.clone();
+    let mut seg = v.indices[0].clone();
+    seg.uuid = "other".into();
+    v.indices.push(seg);
+    expect("index overlap", &v, "index-segment-bitmaps-overlap");
+    if failures.is_empty() {
+        println!("SELFTEST C05 ok: 12 corruptions of the observation all flagged");
+        0
+    } else {
+        for f in failures {
+            println!("SELFTEST C05 FAILED: {f}");
+        }
+        2
+    }
 }
